@@ -580,7 +580,8 @@ def gen_indelivery(rng, i):
         # the registration happens while the start-up buffer is being replayed into the (only) destination of the first call
         nprebuf = rng.randint(1, 4)
         return {"kind": "late_sink", "nprebuf": nprebuf, "nfirst": 1, "drop_one_first": False, "before": rng.randint(0, 2), "after": rng.randint(1, 3),
-                "mode": "self", "nlate": rng.choice([1, 2]), "in_action": False, "replay_trigger": rng.randrange(nprebuf)}
+                "mode": "self", "nlate": rng.choice([1, 2]), "in_action": False, "replay_trigger": rng.randrange(nprebuf),
+                "interrupt": rng.random() < 0.4}
     nprebuf = rng.randint(1, 3)
     return {"kind": "globals_in_handover", "nprebuf": nprebuf, "at": rng.randrange(nprebuf), "nfirst": rng.choice([1, 1, 2]), "nloggers": rng.choice([1, 1, 2]),
             "nmsg": rng.choice([1, 2]), "setter": rng.choice(["self", "thread"]), "prior_globals": rng.random() < 0.4}
@@ -616,6 +617,10 @@ def late_sink_once(sc):
     def primary(m):
         tapes["first0"].append(_label(m))
         if _label(m) == trigger and state["reg_at"] is None and state["timeout"] is None:
+            if sc.get("interrupt"):
+                # Ctrl-C arrives while the destination handles a replayed message; the application catches it and carries on
+                state["interrupted"] = True
+                raise KeyboardInterrupt()
             if sc["mode"] == "self":
                 # e.g. a destination that opens a further sink the first time it sees a certain message
                 add_destinations(*late)
@@ -637,7 +642,18 @@ def late_sink_once(sc):
         th = threading.Thread(target=helper)
         th.daemon = True
         th.start()
-    add_destinations(*first)
+    try:
+        add_destinations(*first)
+    except KeyboardInterrupt:
+        if not sc.get("interrupt"):
+            raise
+        # ... and registers a further destination later on
+        log("mi")
+        try:
+            add_destinations(*late)
+            state["reg_at"] = len(seq)
+        except Exception as e:
+            state["late_add_raised"] = repr(e)
     registered = list(first)
     if sc["drop_one_first"]:
         remove_destination(first[1])
@@ -663,6 +679,23 @@ def late_sink_once(sc):
 
 def judge_late_sink(sc, data, problems):
     seq, tapes, st = data["seq"], data["tapes"], data["state"]
+    if sc.get("interrupt"):
+        if st.get("late_add_raised"):
+            problems.append("after a KeyboardInterrupt had come out of a destination during the replay of the start-up buffer (caught by the application), "
+                            "the next add_destinations raised %s" % st["late_add_raised"])
+            return
+        if st["reg_at"] is None:
+            problems.append("the interrupting destination was never offered its message (tape %s)" % (tapes.get("first0"),))
+            return
+        want_late = seq[st["reg_at"]:]
+        for k in range(sc["nlate"]):
+            if tapes.get("late%d" % k) != want_late:
+                problems.append("destination late%d, registered after an interrupted hand-over, received %s; logged after its registration: %s" % (
+                    k, tapes.get("late%d" % k), want_late))
+        got = tapes.get("first0") or []
+        if got[len(got) - len(want_late) - 1:] != ["mi"] + want_late:
+            problems.append("the destination of the first (interrupted) add_destinations call received %s; logged after the interrupt: %s" % (got, ["mi"] + want_late))
+        return
     if st["reg_at"] is None and sc.get("replay_trigger") is not None:
         problems.append("add_destinations, called by the destination of the first add_destinations call while the start-up buffer was being replayed into it, "
                         "did not return normally (that destination's tape: %s)" % (tapes.get("first0"),))
